@@ -54,13 +54,12 @@ func (k msgServer) Store(goCtx context.Context, msg *types.MsgStore) (*types.Msg
 		return nil, sdkerrors.Wrapf(types.ErrInvalidCid, "invalid cid: %s", proposal.Cid)
 	}
 
-	if !strings.Contains(proposal.CommitId, proposal.DataId) {
-		// validate the permission for all update operations
-		meta, isFound := k.Keeper.model.GetMetadata(ctx, proposal.DataId)
-		if !isFound {
+	// validate the permission for all operations on an existing model
+	if meta, isFound := k.Keeper.model.GetMetadata(ctx, proposal.DataId); !isFound {
+		if !strings.Contains(proposal.CommitId, proposal.DataId) {
 			return nil, status.Errorf(codes.NotFound, "metadata :%s not found", proposal.DataId)
 		}
-
+	} else {
 		isValid := meta.Owner == sigDid
 		if !isValid {
 			for _, readwriteDid := range meta.ReadwriteDids {
